@@ -13,10 +13,20 @@ KTEXT = {"s": "s", "c": "c", "i": "1"}       # model item kind -> text the drive
 
 
 def build_all(mins):
-    with ThreadPoolExecutor(max_workers=6) as ex:
-        exes = list(ex.map(lambda m: vc.build_driver("log_driver_min%d" % m, ["log_driver.cpp"],
-                                                     flags=["-DNITRO_LOG_MIN_SEVERITY=" + SEVNAMES[m]]), mins))
-    return dict(zip(mins, exes))
+    """One executable per compile-time minimum, plus two more builds of the same driver: one by g++ (the compiler of the
+    project's own build: order of evaluation, overload resolution) and one that defines the minimum in the source after
+    other nitro/log headers.  Returns {minimum: [executables]}; every one must behave as the model of its minimum."""
+    import shutil
+    jobs = [(m, "log_driver_min%d" % m, ["-DNITRO_LOG_MIN_SEVERITY=" + SEVNAMES[m]], None) for m in mins]
+    jobs.append((2, "log_driver_late_min2", ["-DVERIF_LATE_MIN=" + SEVNAMES[2]], None))
+    if shutil.which("g++") and vc.CXX != "g++":
+        jobs.append((0, "log_driver_gxx_min0", ["-DNITRO_LOG_MIN_SEVERITY=" + SEVNAMES[0]], "g++"))
+    with ThreadPoolExecutor(max_workers=8) as ex:
+        built = list(ex.map(lambda j: vc.build_driver(j[1], ["log_driver.cpp"], flags=j[2], cxx=j[3]), jobs))
+    exes = {}
+    for j, e in zip(jobs, built):
+        exes.setdefault(j[0], []).append(e)
+    return exes
 
 
 def concrete_item(kind):
@@ -98,28 +108,29 @@ def replay_model(chk, exes, cfgfile, tag):
             by_min.setdefault(m, []).append((fx, p))
     for m, lst in sorted(by_min.items()):
         cases = [dict(fx=fx, steps=[to_step(g.edges[i][1]) for i in p]) for fx, p in lst]
-        obs = vc.run_cases(exes[m], cases, chk.out, "%s_min%d" % (tag, m), per_case_timeout=10)
-        for (fx, p), c, o in zip(lst, cases, obs):
-            if o.get("outcome") == "skipped":
-                continue
-            steps = o.get("steps", [])
-            for k, idx in enumerate(p):
-                act = g.edges[idx][1]
-                wit = dict(min=m, fx=fx, steps=c["steps"][:k + 1])
-                if k >= len(steps):
-                    add_div(chk, o.get("outcome", "crash"), act["op"], wit, "min=%s filter #%d step %d %s: %s" % (SEVNAMES[m], fx, k + 1, c["steps"][k], o.get("outcome")))
-                    break
-                rr = cmp_effect(act["eff"], steps[k])
-                if rr:
-                    add_div(chk, rr[0], act["op"], wit, "compile-time minimum %s, filter #%d, thresholds/program %s: %s" % (
-                        SEVNAMES[m], fx, [json.dumps(s, separators=(",", ":")) for s in c["steps"][max(0, k - 3):k + 1]], rr[1]))
-                    break
-            else:
-                alive = sum(1 for sl in g.edges[p[-1]][3]["slot"] if sl["st"] == "live" and sl["owns"]) if p else 0
-                if o.get("late", 0) != alive:
-                    add_div(chk, "late-delivery", "End", dict(min=m, fx=fx, steps=c["steps"]),
-                            "%d records were delivered when the remaining stream objects were destroyed, specification %d" % (o.get("late", 0), alive))
-        chk.replayed += len(cases)
+        for bi, exe in enumerate(exes[m]):
+            obs = vc.run_cases(exe, cases, chk.out, "%s_min%d_%d" % (tag, m, bi), per_case_timeout=10)
+            for (fx, p), c, o in zip(lst, cases, obs):
+                if o.get("outcome") == "skipped":
+                    continue
+                steps = o.get("steps", [])
+                for k, idx in enumerate(p):
+                    act = g.edges[idx][1]
+                    wit = dict(min=m, build=bi, fx=fx, steps=c["steps"][:k + 1])
+                    if k >= len(steps):
+                        add_div(chk, o.get("outcome", "crash"), act["op"], wit, "[%s] min=%s filter #%d step %d %s: %s" % (os.path.basename(exe), SEVNAMES[m], fx, k + 1, c["steps"][k], o.get("outcome")))
+                        break
+                    rr = cmp_effect(act["eff"], steps[k])
+                    if rr:
+                        add_div(chk, rr[0], act["op"], wit, "[%s] compile-time minimum %s, filter #%d, thresholds/program %s: %s" % (
+                            os.path.basename(exe), SEVNAMES[m], fx, [json.dumps(s, separators=(",", ":")) for s in c["steps"][max(0, k - 3):k + 1]], rr[1]))
+                        break
+                else:
+                    alive = sum(1 for sl in g.edges[p[-1]][3]["slot"] if sl["st"] == "live" and sl["owns"]) if p else 0
+                    if o.get("late", 0) != alive:
+                        add_div(chk, "late-delivery", "End", dict(min=m, build=bi, fx=fx, steps=c["steps"]),
+                                "%d records were delivered when the remaining stream objects were destroyed, specification %d" % (o.get("late", 0), alive))
+            chk.replayed += len(cases)
     chk.notes.append("%s: %d paths cover %d of %d edges over %d logger configurations" % (tag, npaths, ncov, len(g.edges), len(roots)))
     if by_min:
         m, lst = sorted(by_min.items())[len(by_min) // 2]
@@ -173,13 +184,14 @@ def parse_rec(s):
 
 def record(chk, exes, n):
     rng = random.Random("%s/%s" % (chk.seed, chk.pid))
-    by_min = {m: [] for m in exes}
+    builds = sorted((m, bi) for m in exes for bi in range(len(exes[m])))
+    by_min = {b: [] for b in builds}
     for k in range(n):
-        m = rng.choice(sorted(exes))
-        by_min[m].append(dict(fx=rng.randint(1, 9), steps=gen_program(rng, rng.randint(3, 30))))
+        b = rng.choice(builds)
+        by_min[b].append(dict(fx=rng.randint(1, 9), steps=gen_program(rng, rng.randint(3, 30))))
     execs, meta = [], []
-    for m, cases in by_min.items():
-        obs = vc.run_cases(exes[m], cases, chk.out, "record_min%d" % m, per_case_timeout=10)
+    for (m, bi), cases in by_min.items():
+        obs = vc.run_cases(exes[m][bi], cases, chk.out, "record_min%d_%d" % (m, bi), per_case_timeout=10)
         for c, o in zip(cases, obs):
             if o.get("outcome") == "skipped":
                 continue
@@ -201,24 +213,24 @@ def record(chk, exes, n):
                     if any(x["sev"] != parse_rec(x["rec"])["sev"] for x in g["sinks"]):
                         raise ValueError("severity passed to the sink differs from the record's")
                 except ValueError as e:
-                    add_div(chk, "altered", op, dict(min=m, fx=c["fx"], steps=c["steps"][:k + 1]), "unparsable / inconsistent record: %s %s" % (g, e))
+                    add_div(chk, "altered", op, dict(min=m, build=bi, fx=c["fx"], steps=c["steps"][:k + 1]), "unparsable / inconsistent record: %s %s" % (g, e))
                     break
                 evs.append(dict(e=op, args=args, kind=g["kind"], fmt=fmt, sinks=sinks, called=g["called"]))
             if o.get("outcome") == "ok" and o.get("late"):
-                add_div(chk, "late-delivery", "End", dict(min=m, fx=c["fx"], steps=c["steps"]), "record delivered after the program ended")
+                add_div(chk, "late-delivery", "End", dict(min=m, build=bi, fx=c["fx"], steps=c["steps"]), "record delivered after the program ended")
             execs.append(evs)
-            meta.append((m, c))
+            meta.append((m, bi, c))
     # each execution carries its own Reset event with the configuration
     rej, st = vc.validate_trace("log/LogTrace", "log/LogTrace.cfg", execs, chk.out, "trace", batch=3000)
     chk.states += st["states"]
     chk.transitions += st["states"]
     chk.recorded += len(execs) - st["unexamined"]
     for k, matched, path, why in rej:
-        m, c = meta[k]
+        m, bi, c = meta[k]
         # validate_trace writes its own Reset line first: event index `matched` counts from it
         ev = execs[k][min(matched + 1, len(execs[k]) - 1)]      # execs[k][0] is the Reset event
-        add_div(chk, "trace-rejected", ev["e"], dict(min=m, fx=c["fx"], steps=c["steps"]),
-                "recorded statement %d rejected by LogTrace (%s): min=%s filter #%d %s%s -> kind=%s fmt=%s sinks=%s called=%s" % (
+        add_div(chk, "trace-rejected", ev["e"], dict(min=m, build=bi, fx=c["fx"], steps=c["steps"]),
+                "[" + os.path.basename(exes[m][bi]) + "] recorded statement %d rejected by LogTrace (%s): min=%s filter #%d %s%s -> kind=%s fmt=%s sinks=%s called=%s" % (
                     matched, why, SEVNAMES[m], c["fx"], ev["e"], json.dumps(ev["args"]), ev["kind"], ev["fmt"], [x["sink"] for x in ev["sinks"]], ev["called"]))
     if execs:
         chk.sample(dict(kind="code->spec events", events=execs[0][:4]))
@@ -229,7 +241,7 @@ def run(chk, replay_path):
     if replay_path:
         d = json.load(open(replay_path))
         w = d["witness"]
-        obs = vc.run_cases(exes[w["min"]], [dict(fx=w["fx"], steps=w["steps"])], chk.out, "replay1")
+        obs = vc.run_cases(exes[w["min"]][w.get("build", 0)], [dict(fx=w["fx"], steps=w["steps"])], chk.out, "replay1")
         print("replayed witness:", json.dumps(w))
         print("observation:", json.dumps(obs[0])[:3000])
         chk.states = chk.transitions = chk.replayed = 1
@@ -241,5 +253,6 @@ def run(chk, replay_path):
     chk.bounds["gate model"] = "6 compile-time minima x 9 filter expressions (8 over thresholds, one with a user-written tag filter) x all thresholds 0..5 of three threshold filters x 6 severities x tag"
     chk.bounds["statement model"] = "named stream objects (2 alive at once) and expression statements, up to 2 items over string/integer/callable"
     record(chk, exes, 1500 if chk.tier == "quick" else 20000)
+    chk.bounds["builds"] = {SEVNAMES[m]: [os.path.basename(e) for e in lst] for m, lst in exes.items()}
     chk.assumptions += ["the recording sink, formatter and callables are template/streamed arguments of the logger: what they receive is what the library passes",
                         "thresholds are only changed between statements", "single thread (C09 covers concurrency)"]
